@@ -698,6 +698,18 @@ def dispatch_infra(ck, clause):
     except AnchorMissing:
         pass
     import_results(ck, C01, "3", "dispatch_events", clause)
+    if ck.prop != "C09":
+        import_results(ck, C09, "2", "dispatch_events", clause)
+    if ck.prop != "C15":
+        from props import C15
+        import core as _core
+
+        # the error exits of the batch loop are C15's recorded finding (F-C15-2) and stay C15's to report; any *other*
+        # early exit of the loop (a break on stop(), a return) strands the rest of the batch for every property
+        known15 = {k["key"].split("/", 1)[1] for k in _core.load_known() if k.get("property") == "C15" and k.get("status") == "open"}
+        before = len(ck.results)
+        import_results(ck, C15, "5", "dispatch_events", clause)
+        ck.results[before:] = [r for r in ck.results[before:] if r["key"].split("/", 1)[1] not in known15]
 
 
 def ping_infra(ck, clause):
@@ -709,5 +721,6 @@ def ping_infra(ck, clause):
     from props import C03, C01, C15
 
     import_results(ck, C03, "5", None, clause)
+    import_results(ck, C03, "2", "Ping::ping", clause)
     import_results(ck, C01, "5", "Generic", clause)
     import_results(ck, C15, "4", "Generic", clause)
